@@ -13,7 +13,7 @@ class UID:
         return self.n
 
 
-COMPUTE_OPS = [("pass", 1, 3), ("add2", 2, 5), ("add3", 3, 2), ("acc", 1, 2), ("count", 1, 1), ("sample", 2, 2),
+COMPUTE_OPS = [("pass", 1, 3), ("add2", 2, 5), ("add3", 3, 2), ("acc", 1, 2), ("count", 1, 1), ("sample", 2, 2), ("sample3", 3, 2),
                ("gate", 2, 2), ("halfgate", 2, 1), ("allvalid2", 2, 1), ("list2", 2, 1), ("delay", 1, 2)]
 
 
@@ -137,6 +137,8 @@ class ProgGen:
                     a = rng.choice(cands)
                 if self.allow_passive and op in ("add2", "add3", "gate") and arity > 1 and q > 0 and rng.random() < 0.15:
                     a = "~" + a
+                if self.allow_passive and op == "sample3" and q == 2 and rng.random() < 0.5:
+                    a = "~" + a         # wiring-time passive marker next to a signature-passive input
                 args.append(a)
             kw = dict(uid=self.uid())
             if op == "ite":
